@@ -200,6 +200,14 @@ def main(mode):
                 except errors.ProtocolError:
                     if plen + 9 <= limit:
                         fail = fail or {"fn": "limit", "violated": "sender refused %d <= MAX %d" % (plen + 9, limit)}
+        # compressible payloads around a lowered limit: what the sender accepts (the limit applies to the bytes on the wire) must come back whole
+        for limit in (150, 300, 4096):
+            for plen in (limit - 50, limit, limit + 1, 3 * limit, 20 * limit):
+                for a in ({}, {"ABCD": b"12"}):
+                    for comp in (False, True):
+                        config.MAX_MESSAGE_SIZE = limit
+                        runs += 1
+                        fail = fail or roundtrip(4, 0, 9, 2, bytes((i * 7) % 3 + 65 for i in range(plen)), a, None, comp)
         config.MAX_MESSAGE_SIZE = 1024 * 1024 * 1024
     # decoder on mutated messages
     if not fail:
